@@ -1,4 +1,5 @@
 import CV.Proofs.HttpServerErr
+import CV.Proofs.HttpLexed
 /-
 C14 - Any bytes on an HTTP connection: wait or one valid error response, never a crash.
 
@@ -21,14 +22,16 @@ it rests on the correspondence run (C03-C04 cover the loop).
 Environment convention (see the model's header): reads are non-empty and none is delivered after
 the component asked for the close (`late`).
 
-OPEN (stated, not proved; validated on every generated case by the correspondence, which compares
-the request the handler saw with the leaf decodings of the model's `fl` / `hb`):
-    lexed_consistent : for every parser state reachable by `exec le.base` from `init .request` with
-        errno ∉ {0, 1}:  core.fl = some f → ∃ l, core.firstLine = some l ∧ le.base.first .request l = some f,
+Formerly OPEN, now proved (`lexed_consistent`, last theorem of this file; helper invariant
+`Http.Lexed` in CV/Proofs/HttpLexed.lean), for every instantiation of the lexers - in particular for
+`Http.concreteLex` (CV/Model/HttpLex.lean), the executable model of the code's own leaf functions:
+    lexed_consistent : for every parser state reachable by `exec le.base` from `init .request`:
+        core.fl = some f → ∃ l, core.firstLine = some l ∧ le.base.first .request l = some f,
         and core.hdrDone → core.hi = (match core.hdrBlock with | some b => le.base.hdrs b | none => some noHdrs)
 i.e. the `req.fl` / `req.hi` that `dispatched_was_accepted` speaks about are the lexers' verdicts on
-exactly the bytes `fl` / `hb` it names.  `dispatched_was_accepted` is proved about the parser's
-recorded fields; this invariant would restate it over the bytes alone.
+exactly the bytes `fl` / `hb` it names.  (The condition errno ∉ {0, 1} of the OPEN statement turned out
+to be unnecessary.)  The correspondence still compares, on every generated case, the request the handler
+saw with the leaf decodings of the model's `fl` / `hb`.
 
 Hypothesis that appears in `error_response_valid`: `wf rq r` of C15 - the reason phrase and the
 header texts of the error page (Date, Server, Location) contain no CR/LF and are not framing
@@ -279,5 +282,26 @@ example : ∀ s, alive s [Ev.read 1 [71, 13] (.ok false), Ev.read 2 [66, 13, 10]
     · have a1 : ¬ (1 = s) := fun e => h1 e.symm
       have a2 : ¬ (2 = s) := fun e => h2 e.symm
       simp [alive, a1, a2]
+
+/-- **The recorded verdicts are the lexers' verdicts on the recorded bytes** (formerly OPEN).  In every
+parser state reachable from a fresh request parser by any sequence of reads - whatever the bytes,
+whatever errors occurred - the first-line record `fl` is what the first-line lexer (the model of
+`_parse_firstline`, with "raises" = rejected) says about exactly the recorded bytes `firstLine`, and
+once the headers are complete the header record `hi` is what the header lexer says about exactly the
+recorded header block (`none`: the empty block).  Hence the `req.fl` / `req.hi` of
+`dispatched_was_accepted` are verdicts on the bytes `fl` / `hb` it names.  For every `le`, in
+particular for the concrete lexers `Http.concreteLex` of CV/Model/HttpLex.lean. -/
+theorem lexed_consistent (le : LexE) (segs : List Bytes) :
+    let p := execAll le.base (init .request) segs
+    (∀ f, p.core.fl = some f → ∃ l, p.core.firstLine = some l ∧ le.base.first .request l = some f) ∧
+    (p.core.hdrDone = true →
+      p.core.hi = (match p.core.hdrBlock with | some b => le.base.hdrs b | none => some noHdrs)) := by
+  intro p
+  have h := lexed_execAll le.base segs (init .request) (lexed_init le.base .request)
+  have hk : p.core.kind = .request := execAll_kind le.base segs (init .request)
+  refine ⟨?_, h.hdrs⟩
+  intro f hf
+  obtain ⟨l, h1, h2⟩ := h.first f hf
+  exact ⟨l, h1, by rw [← hk]; exact h2⟩
 
 end CV.C14
